@@ -385,6 +385,29 @@ class FnTaint:
                         return True
         return False
 
+    def clamped_by(self, b_op, a_op):
+        """`a - b` where b is (a copy of) `min(a, x)` / `x.min(a)` / `clamp(_, a)`, or a is `max(b, x)`: ordered by construction"""
+        if self.cfg is None:
+            self.cfg = mirg.Cfg(self.fn)
+            self.du = mirg.DefUse(self.fn)
+        la, fa = self._aliases(a_op)
+        lb, fb = self._aliases(b_op)
+        for x in lb:
+            for _b, k_, p_ in self.du.defs.get(x, []):
+                if k_ == "call" and re.search(r"(::min$|::clamp$)", ncallee(p_) or ""):
+                    for o in p_["a"]:
+                        lo, fo = self._aliases(o)
+                        if (lo & la) or (fo & fa):
+                            return True
+        for x in la:
+            for _b, k_, p_ in self.du.defs.get(x, []):
+                if k_ == "call" and re.search(r"(::max$)", ncallee(p_) or ""):
+                    for o in p_["a"]:
+                        lo, fo = self._aliases(o)
+                        if (lo & lb) or (fo & fb):
+                            return True
+        return False
+
     def ordered_before(self, a_op, b_op, bb):
         """evidence that the two operands of `a - b` were compared *with each other* on every path to bb: a dominating ordered
         comparison (or a checking call) whose one side derives from a and whose other side derives from b"""
